@@ -870,7 +870,7 @@ pub fn run_check(ctx: &Ctx) -> i32 {
         .set("exhaustive_within_bound", json!(true));
     ev.assume("the access check function itself over the full ACL space is C05's subject; event reads and event reports of subscriptions are judged in the events world (see 'events')");
     ev.assume("a concrete path to an absent element may be answered with 'unsupported access' instead of the specific 'unsupported ...' status when the requester has no privilege on the target");
-    if runs == 0 || data_items == 0 || effects == 0 || statuses == 0 {
+    if report.violations.is_empty() && (runs == 0 || data_items == 0 || effects == 0 || statuses == 0) {
         eprintln!("MACHINERY: vacuous C06 run ({} runs, {} data, {} effects, {} statuses)", runs, data_items, effects, statuses);
         return 2;
     }
